@@ -2,7 +2,7 @@
 C09 (source tie) — the hand-written model of the decision of `Queue::schedule_task`
 (`KM.Queue.scheduleWith`, Queue/Queue.lean) equals the definition that the translator `pure_fns`
 regenerates from the closure body in `/repo/src/commons/queue.rs` on every run
-(`Generated/PureFnsC09.lean`, `KM.Gen.Queue.schedule_task`).
+(`Generated/PureFnsC09.lean`, `KM.Gen.C09.Queue.schedule_task`).
 
 `soonest_keeps_earlier`, `if_missing_keeps_existing` and the other scheduling theorems
 (Props/C09.lean) are about `schedule`, i.e. `scheduleWith` for every resolution of the two look-ups.
@@ -23,7 +23,7 @@ namespace KM.Props.C09Src
 open KM.Queue
 
 /-- Model mode ↦ Rust variant. -/
-def toGen : Mode → KM.Gen.ScheduleMode
+def toGen : Mode → KM.Gen.C09.ScheduleMode
   | .replaceExisting => .ReplaceExisting
   | .replaceExistingSoonest => .ReplaceExistingSoonest
   | .finishOrReplaceExisting => .FinishOrReplaceExisting
@@ -49,14 +49,14 @@ for every queue state, task, time stamp (given or taken from the clock), mode an
 the two look-ups. -/
 theorem gen_schedule_task_eq_model (s : QState) (name val : String) (tsOpt : Option Nat) (now : Nat)
     (mode : Mode) (p r : Option Entry) :
-    KM.Gen.Queue.schedule_task (σ := QState) (κ := Entry)
+    KM.Gen.C09.Queue.schedule_task (σ := QState) (κ := Entry)
         (fun st e => { st with pending := kvDel st.pending e.ts e.name })
         (fun st e => { st with running := kvDel st.running e.ts e.name })
         (fun st t => { st with pending := kvPut st.pending ⟨t, name, val⟩ })
         now s tsOpt (toGen mode) (found p) (found r) =
       scheduleWith s name val (tsOpt.getD now) mode p r := by
   cases mode <;> cases p <;> cases r <;>
-    simp [KM.Gen.Queue.schedule_task, scheduleWith, toGen, found, delOpt, minOpt]
+    simp [KM.Gen.C09.Queue.schedule_task, scheduleWith, toGen, found, delOpt, minOpt]
 
 /-- Non-vacuity: the generated definition on a concrete queue – `IfMissing` keeps an existing task,
 `ReplaceExistingSoonest` keeps the earlier time, `FinishOrReplaceExisting` removes the running entry. -/
@@ -64,7 +64,7 @@ example :
     let e : Entry := ⟨5, "t", "old"⟩
     let s : QState := ⟨[e], [⟨3, "t", "run"⟩]⟩
     let g (m : Mode) (p r : Option Entry) :=
-      KM.Gen.Queue.schedule_task (σ := QState) (κ := Entry)
+      KM.Gen.C09.Queue.schedule_task (σ := QState) (κ := Entry)
         (fun st e => { st with pending := kvDel st.pending e.ts e.name })
         (fun st e => { st with running := kvDel st.running e.ts e.name })
         (fun st t => { st with pending := kvPut st.pending ⟨t, "t", "new"⟩ })
